@@ -15,8 +15,7 @@
 //!    threshold that is outside the applicable panic threshold (by more than a 4-unit
 //!    conversion margin) must end in `stopped` with no step, not be skipped or stepped.
 
-use crate::common::clksim::{self as sim, Direct, Op, Poll, Sim, Spec, Thr, UNIT};
-use crate::core::fork::Ended;
+use crate::common::clksim::{self as sim, Direct, JobEnd, Op, Poll, Sim, Spec, Thr, UNIT};
 use crate::core::{Case, Profiles, Prop, Rng, Tier, guard};
 use ntp_proto::AlgorithmConfig;
 use serde_json::{Value, json};
@@ -24,7 +23,7 @@ use serde_json::{Value, json};
 pub static PROP: Prop = Prop {
     id: "C01",
     level: "exploration",
-    rule: "case = one execution of the real KalmanClockController in a forked child: either (direct) a script of 1-12 \
+    rule: "case = a batch of 14 executions of the real KalmanClockController in forked children (re-forked after every stop), each either (direct) a script of 1-12 \
            corrections passed to steer_offset in the startup or the post-startup phase, with corrections placed on and \
            around the applicable forward/backward/accumulated thresholds (x0.5 .. x10, +-1..17 units, +-1 ms), the step \
            threshold and saturating magnitudes; or (closed loop) a simulated history of 1-5 agreeing sources whose common \
@@ -38,7 +37,7 @@ pub static PROP: Prop = Prop {
         "private steering routines and the in_startup flag are reached through the guarded hook kalman_a1.rs (read/call only)",
     ],
     profiles: Profiles::Both,
-    cases: |t| t.pick(6_000, 80_000),
+    cases: |t| t.pick(1_000, 12_000),
     budget_s: |t| t.pick(40, 400),
     run,
     min_nontrivial: 100,
@@ -134,31 +133,18 @@ fn parse_observed(v: &Value) -> Option<(Vec<(u64, i64)>, Option<u64>, u64)> {
     Some((steps, v.get("first_used").and_then(|x| x.as_u64()), v.get("inflight")?.as_u64()?))
 }
 
-/// Turn the way the child ended into the observed events. None = nothing to judge (harness problem recorded).
-fn observe(c: &mut Case, ended: Ended) -> Option<(Observed, Value)> {
+/// Turn the way a job ended into the observed events. None = nothing to judge (harness problem recorded).
+fn observe(c: &mut Case, ended: JobEnd) -> Option<(Observed, Value)> {
     match ended {
-        Ended::Returned(v) => {
+        JobEnd::Returned(v) => {
             let (steps, first_used, _) = parse_observed(&v)?;
             Some((Observed { steps, first_used, stopped_at: None }, v))
         }
-        Ended::Exited(70, Some(v)) if v.get("at_exit").and_then(|x| x.as_bool()) == Some(true) => {
+        JobEnd::Stopped(v) => {
             let (steps, first_used, inflight) = parse_observed(&v)?;
             Some((Observed { steps, first_used, stopped_at: Some(inflight) }, v))
         }
-        Ended::Exited(70, other) => {
-            c.harness_error(format!("child exited 70 but the exit handler did not report: {other:?}"));
-            None
-        }
-        Ended::Exited(code, last) => {
-            c.inc("child_other_exit");
-            c.harness_error(format!("child exited with status {code}: {last:?}"));
-            None
-        }
-        Ended::Signaled(s) => {
-            c.harness_error(format!("child killed by signal {s}"));
-            None
-        }
-        Ended::HarnessError(e) => {
+        JobEnd::Lost(e) => {
             c.harness_error(e);
             None
         }
@@ -174,6 +160,7 @@ struct DirectCase {
     step_threshold: f64,
     post: bool,
     kernel_freq: f64,
+    local_start: u64,
     corrections: Vec<f64>,
 }
 
@@ -186,25 +173,28 @@ impl DirectCase {
     }
 }
 
-fn gen_correction(rng: &mut Rng, thr: Thr, acc_left: Option<i128>, step_thr: f64) -> f64 {
+/// `outside`: aim beyond the applicable limit (such a correction normally ends the script with a stop)
+fn gen_correction(rng: &mut Rng, thr: Thr, acc_left: Option<i128>, step_thr: f64, outside: bool) -> f64 {
     let sign = if rng.bool() { 1.0 } else { -1.0 };
     let t_units = if sign > 0.0 { thr.fwd } else { thr.bwd };
+    let mult: &[f64] = if outside { &[1.000001, 1.1, 2.0, 10.0] } else { &[0.1, 0.5, 0.9, 0.999999] };
+    let lattice: &[i128] = if outside { &[0, 1, 2, 3, 5, 9, 17] } else { &[-17, -9, -5, -3, -2, -1] };
     let mag = match (rng.below(12), t_units) {
-        (0..=2, Some(t)) => (t as f64 / UNIT) * *rng.pick(&[0.5, 0.9, 0.999999, 1.000001, 1.1, 2.0, 10.0]),
-        (3..=4, Some(t)) => (t as i128 + *rng.pick(&[-17i128, -9, -5, -3, -2, -1, 0, 1, 2, 3, 5, 9, 17])) as f64 / UNIT,
-        (5, Some(t)) => (t as f64 / UNIT) + *rng.pick(&[-0.001, 0.001]),
-        (6..=7, _) if acc_left.is_some() => {
+        (0..=2, Some(t)) => (t as f64 / UNIT) * *rng.pick(mult),
+        (3..=4, Some(t)) => (t as i128 + *rng.pick(lattice)) as f64 / UNIT,
+        (5, Some(t)) => (t as f64 / UNIT) + if outside { 0.001 } else { -0.001 },
+        (6..=8, _) if acc_left.is_some() => {
             let left = acc_left.unwrap().max(0);
             if rng.bool() {
-                (left as f64 / UNIT) * *rng.pick(&[0.3, 0.5, 0.999, 1.001, 2.0])
+                (left as f64 / UNIT) * *rng.pick(if outside { &[1.001, 2.0] } else { &[0.1, 0.3, 0.5, 0.999] })
             } else {
-                (left + *rng.pick(&[-9i128, -5, -1, 0, 1, 5, 9])).max(0) as f64 / UNIT
+                (left + *rng.pick(if outside { &[1i128, 5, 9] } else { &[-9i128, -5, -1, 0] })).max(0) as f64 / UNIT
             }
         }
-        (8, _) => step_thr * *rng.pick(&[0.5, 0.999, 1.001, 2.0, 10.0]),
-        (9, _) => *rng.pick(&[1e9, 2.2e9, 4e9, 1e12, 1e15, 2147483647.5, 2147483648.0]),
+        (9, _) if outside => *rng.pick(&[1e9, 2.2e9, 4e9, 1e12, 1e15, 2147483647.5, 2147483648.0]),
+        (9, _) => step_thr * *rng.pick(&[0.5, 0.999, 1.001, 2.0, 10.0]),
         (10, _) => rng.log_uniform(1e-9, 1e-2),
-        _ => rng.log_uniform(1e-4, 1e6),
+        _ => rng.log_uniform(1e-4, if outside { 1e7 } else { 10.0 }),
     };
     sign * mag.abs()
 }
@@ -222,18 +212,28 @@ fn gen_direct(rng: &mut Rng) -> DirectCase {
     } else {
         None
     };
-    let n = if rng.chance(1, 4) { 1 } else { rng.usize(2, 12) };
+    let n = rng.usize(0, 10);
     let applicable = if post { single } else { startup };
     let mut corrections = Vec::new();
     let mut predicted_sum: i128 = 0;
-    for _ in 0..n {
+    let mut push = |rng: &mut Rng, outside: bool, corrections: &mut Vec<f64>| {
         let left = if post { acc.map(|a| a as i128 - predicted_sum) } else { None };
-        let x = gen_correction(rng, applicable, left, step_threshold);
+        let x = gen_correction(rng, applicable, left, step_threshold, outside);
         let e = sim::ref_raw(x);
         if post && x.abs() > step_threshold && !applicable.strictly_outside(e) {
             predicted_sum += (e as i128).abs();
         }
         corrections.push(x);
+    };
+    for _ in 0..n {
+        push(rng, false, &mut corrections);
+    }
+    if n == 0 || rng.chance(2, 5) {
+        push(rng, true, &mut corrections);
+        if rng.chance(1, 4) {
+            // something after the expected stop (only reached if the stop does not happen)
+            push(rng, false, &mut corrections);
+        }
     }
     DirectCase {
         startup,
@@ -242,46 +242,47 @@ fn gen_direct(rng: &mut Rng) -> DirectCase {
         step_threshold,
         post,
         kernel_freq: *rng.pick(&[0.0, 1e-5, -2e-4]),
+        local_start: rng.u64(),
         corrections,
     }
 }
 
-fn run_direct(c: &mut Case) {
-    let d = gen_direct(&mut c.rng);
-    let local_start = c.rng.u64();
-    let ended = sim::in_child_streaming(|| {
-        let mut spec = Spec::basic(0, &mut Rng::new(1));
-        spec.startup = d.startup;
-        spec.single = d.single;
-        spec.accumulated = d.acc;
-        let algo = AlgorithmConfig { step_threshold: d.step_threshold, ..AlgorithmConfig::default() };
-        let mut dd = Direct::new(spec.sync_config(), algo, d.kernel_freq, local_start);
-        sim::register_exit_clock(&dd.clock);
-        let mut left = true;
-        if d.post {
-            left = dd.leave_startup();
-        }
-        let mut panic: Option<String> = None;
-        let mut done = 0usize;
-        if left {
-            for x in &d.corrections {
-                dd.advance(1.0);
-                match guard(|| dd.steer_offset(*x, 0.0)) {
-                    Ok(_) => done += 1,
-                    Err(p) => {
-                        panic = Some(format!("{}: {}", p.location, p.message));
-                        break;
-                    }
+/// runs in the child
+fn child_direct(d: &DirectCase) -> Value {
+    let mut spec = Spec::basic(0, &mut Rng::new(1));
+    spec.startup = d.startup;
+    spec.single = d.single;
+    spec.accumulated = d.acc;
+    let algo = AlgorithmConfig { step_threshold: d.step_threshold, ..AlgorithmConfig::default() };
+    let mut dd = Direct::new(spec.sync_config(), algo, d.kernel_freq, d.local_start);
+    sim::register_exit_clock(&dd.clock);
+    let mut left = true;
+    if d.post {
+        left = dd.leave_startup();
+    }
+    let mut panic: Option<String> = None;
+    let mut done = 0usize;
+    if left {
+        for x in &d.corrections {
+            dd.advance(1.0);
+            match guard(|| dd.steer_offset(*x, 0.0)) {
+                Ok(_) => done += 1,
+                Err(p) => {
+                    panic = Some(format!("{}: {}", p.location, p.message));
+                    break;
                 }
             }
         }
-        let mut v = dd.clock.st().c01_summary(false);
-        v["left_startup"] = json!(left);
-        v["done"] = json!(done);
-        v["panic"] = json!(panic);
-        v["hook_in_startup"] = json!(ntp_proto::verif::clk::probe::in_startup(&dd.ctl));
-        v
-    });
+    }
+    let mut v = dd.clock.st().c01_summary(false);
+    v["left_startup"] = json!(left);
+    v["done"] = json!(done);
+    v["panic"] = json!(panic);
+    v["hook_in_startup"] = json!(ntp_proto::verif::clk::probe::in_startup(&dd.ctl));
+    v
+}
+
+fn judge_direct(c: &mut Case, d: &DirectCase, ended: JobEnd) {
     let Some((obs, raw)) = observe(c, ended) else { return };
     if obs.stopped_at.is_none() {
         if raw.get("left_startup").and_then(|x| x.as_bool()) == Some(false) {
@@ -388,7 +389,10 @@ fn gen_closed(rng: &mut Rng) -> Spec {
     let x0 = match rng.below(5) {
         0 => rng.f64_range(-0.3, 0.3),
         1 => dir * rng.log_uniform(0.02, 5000.0),
-        _ => dir * t_start.unwrap_or_else(|| rng.log_uniform(0.1, 1e5)) * *rng.pick(&[0.3, 0.9, 0.99, 0.9999, 1.0001, 1.01, 1.1, 3.0]),
+        _ => {
+            let m = if rng.chance(1, 4) { *rng.pick(&[1.0001, 1.01, 1.1, 3.0]) } else { *rng.pick(&[0.1, 0.3, 0.9, 0.99, 0.9999]) };
+            dir * t_start.unwrap_or_else(|| rng.log_uniform(0.1, 1e5)) * m
+        }
     };
     spec.sources = sim::gen_agreeing_sources(rng, n, x0, 2e-4);
     let poll = *rng.pick(&[1.0, 2.0, 4.0, 8.0]);
@@ -406,9 +410,12 @@ fn gen_closed(rng: &mut Rng) -> Spec {
         let acc_s = spec.accumulated.map(|a| a as f64 / UNIT);
         let amount = dir
             * match rng.below(4) {
-                0 => acc_s.unwrap_or(10.0) * *rng.pick(&[0.2, 0.35, 0.6, 1.1]),
+                0 => acc_s.unwrap_or(10.0) * *rng.pick(&[0.1, 0.2, 0.35, 0.6, 1.1]),
                 1 => rng.log_uniform(0.02, 50.0),
-                _ => t_single.unwrap_or_else(|| rng.log_uniform(0.1, 1e4)) * *rng.pick(&[0.3, 0.9, 0.999, 1.001, 1.1, 1.9, 2.1, 5.0]),
+                _ => {
+                    let m = if rng.chance(1, 5) { *rng.pick(&[1.001, 1.1, 1.9, 2.1, 5.0]) } else { *rng.pick(&[0.1, 0.3, 0.5, 0.9, 0.999]) };
+                    t_single.unwrap_or_else(|| rng.log_uniform(0.1, 1e4)) * m
+                }
             };
         if rng.chance(2, 3) {
             remote_sum += amount;
@@ -427,45 +434,46 @@ fn gen_closed(rng: &mut Rng) -> Spec {
     spec
 }
 
-fn run_closed(c: &mut Case) {
-    let spec = gen_closed(&mut c.rng);
+/// runs in the child
+fn child_closed(spec: Spec) -> Value {
+    let mut s = Sim::new(spec);
+    sim::register_exit_clock(&s.core.clock);
+    let mut panic: Option<String> = None;
+    let mut slews = 0u64;
+    let mut used_updates = 0u64;
+    let mut hook_mismatch = 0u64;
+    while let Some(info) = s.step() {
+        if let Some((w, p)) = &info.panic {
+            panic = Some(format!("{w}: {}: {}", p.location, p.message));
+        }
+        if let Some(u) = &info.update {
+            if u.next_update.is_some() {
+                slews += 1;
+            }
+            if u.used.is_some() {
+                used_updates += 1;
+            }
+        }
+        // cross-check of the observable phase boundary against the hooked flag (evidence only)
+        let first_used = s.core.clock.st().first_used_call.is_some();
+        if first_used == info.in_startup {
+            hook_mismatch += 1;
+        }
+    }
+    let mut v = s.core.clock.st().c01_summary(false);
+    v["n_meas"] = json!(s.core.n_meas);
+    v["calls"] = json!(s.core.call_no);
+    v["panic"] = json!(panic);
+    v["slews"] = json!(slews);
+    v["used_updates"] = json!(used_updates);
+    v["hook_mismatch"] = json!(hook_mismatch);
+    v
+}
+
+fn judge_closed(c: &mut Case, spec: &Spec, ended: JobEnd) {
     let spec_json = spec.to_json();
     let (startup, single, acc) = (spec.startup, spec.single, spec.accumulated);
     let nsrc = spec.sources.len();
-    let ended = sim::in_child_streaming(move || {
-        let mut s = Sim::new(spec);
-        sim::register_exit_clock(&s.core.clock);
-        let mut panic: Option<String> = None;
-        let mut slews = 0u64;
-        let mut used_updates = 0u64;
-        let mut hook_mismatch = 0u64;
-        while let Some(info) = s.step() {
-            if let Some((w, p)) = &info.panic {
-                panic = Some(format!("{w}: {}: {}", p.location, p.message));
-            }
-            if let Some(u) = &info.update {
-                if u.next_update.is_some() {
-                    slews += 1;
-                }
-                if u.used.is_some() {
-                    used_updates += 1;
-                }
-            }
-            // cross-check of the observable phase boundary against the hooked flag (evidence only)
-            let first_used = s.core.clock.st().first_used_call.is_some();
-            if first_used == info.in_startup {
-                hook_mismatch += 1;
-            }
-        }
-        let mut v = s.core.clock.st().c01_summary(false);
-        v["n_meas"] = json!(s.core.n_meas);
-        v["calls"] = json!(s.core.call_no);
-        v["panic"] = json!(panic);
-        v["slews"] = json!(slews);
-        v["used_updates"] = json!(used_updates);
-        v["hook_mismatch"] = json!(hook_mismatch);
-        v
-    });
     let Some((obs, raw)) = observe(c, ended) else { return };
     c.inc("closed_cases");
     if let Some(n) = raw.get("n_meas").and_then(|x| x.as_u64()) {
@@ -486,10 +494,29 @@ fn run_closed(c: &mut Case) {
     c.sample(|| json!({"spec": spec_json.clone(), "observed": raw}));
 }
 
+enum Job {
+    Direct(DirectCase),
+    Closed(Spec),
+}
+
 fn run(c: &mut Case) {
-    if c.idx % 5 < 3 {
-        run_direct(c);
-    } else {
-        run_closed(c);
+    // one case = a batch of executions sharing forked children (fork is expensive here)
+    let mut jobs = Vec::new();
+    for k in 0..14 {
+        if k % 7 < 5 {
+            jobs.push(Job::Direct(gen_direct(&mut c.rng)));
+        } else {
+            jobs.push(Job::Closed(gen_closed(&mut c.rng)));
+        }
+    }
+    let ends = sim::run_jobs_in_children(jobs.len(), &|k| match &jobs[k] {
+        Job::Direct(d) => child_direct(d),
+        Job::Closed(s) => child_closed(s.clone()),
+    });
+    for (job, end) in jobs.iter().zip(ends) {
+        match job {
+            Job::Direct(d) => judge_direct(c, d, end),
+            Job::Closed(s) => judge_closed(c, s, end),
+        }
     }
 }
